@@ -88,6 +88,7 @@ const NAMES: &[&str] = &[
     "ring_bounded_index", "ring_bounded_raw", "frame_channels_mut", "interp_direct", "lift", "conv_source_access",
     "rectifier_structs", "window_direct", "slice_trait_forms",
     "bus_drop_caught_up", "bus_drop_laggard", "bus_reattach", "graph_fan_in_1500", "graph_chain_1500", "graph_alternating_outputs",
+    "graph_node_shapes",
 ];
 
 fn run(name: &str, k: usize, seed: u64) -> Vec<i64> {
@@ -862,6 +863,39 @@ fn run(name: &str, k: usize, seed: u64) -> Vec<i64> {
             let caps2 = p.verif_capacities();
             v.extend_from_slice(&[caps1.0 as i64, caps1.1 as i64, caps2.0 as i64, caps2.1 as i64]);
             v
+        }
+
+        "graph_node_shapes" => {
+            // every stock node with 0..4 output buffers, mismatched input widths, delay rings of many
+            // lengths (below, at and above Buffer::LEN, multiples and non-multiples of it)
+            type G = petgraph::graph::DiGraph<NodeData<BoxedNode>, ()>;
+            let mut g: G = petgraph::graph::DiGraph::new();
+            let mk = |n: usize| vec![Buffer::SILENT; n];
+            let src3 = g.add_node(NodeData::new(BoxedNode::new(Box::new(signal::noise(9).map(|s| [s as f32, -s as f32, 0.5f32])) as Box<dyn Signal<Frame = [f32; 3]>>), mk(3)));
+            let src1 = g.add_node(NodeData::new1(BoxedNode::new(Box::new(signal::noise(4).map(|s| [s as f32])) as Box<dyn Signal<Frame = [f32; 1]>>)));
+            let out = g.add_node(NodeData::new(BoxedNode::new(node::Sum), mk(4)));
+            for nbuf in 0..5usize {
+                let sb = g.add_node(NodeData::new(BoxedNode::new(node::SumBuffers), mk(nbuf)));
+                let su = g.add_node(NodeData::new(BoxedNode::new(node::Sum), mk(nbuf)));
+                let pa = g.add_node(NodeData::new(BoxedNode::new(node::Pass), mk(nbuf)));
+                for n in [sb, su, pa].iter() {
+                    g.add_edge(src3, *n, ());
+                    g.add_edge(src1, *n, ());
+                    g.add_edge(*n, out, ());
+                }
+            }
+            for len in [1usize, 2, 7, 63, 64, 65, 100, 128, 129, 1000].iter() {
+                let d = node::Delay(vec![ring_buffer::Fixed::from(vec![0.0f32; *len]), ring_buffer::Fixed::from(vec![0.0f32; *len + 3])]);
+                let dn = g.add_node(NodeData::new2(BoxedNode::new(d)));
+                g.add_edge(src3, dn, ());
+                g.add_edge(dn, out, ());
+            }
+            let mut p: Processor<G> = Processor::with_capacity(64);
+            p.process(&mut g, out);
+            measure(k.min(200), |i| {
+                p.process(&mut g, out);
+                black_box(g[out].buffers[0][i % 64]);
+            })
         }
         _ => vec![-1],
     }
